@@ -213,10 +213,11 @@ def run(ctx):
         cfgs = [c for c in cfgs if c['cost'] == 'sphere' or (c['evalmon'], c['stepmon']) == ('Monitor', 'Monitor')]
     # the callback given as a callable OBJECT that is false in a boolean context (an empty recorder with __call__)
     cfgs += [dict(c, callback_kind='falsy') for c in cfgs if c['cost'] == 'sphere' and (c['evalmon'], c['stepmon']) == ('Monitor', 'Monitor') and c['seed'] == ctx.seed]
-    items = [(cfg, depth, (i,)) for cfg in cfgs for i in range(len(ALPHABET))]
+    # thorough: depth 5 on the sphere cost (every solver, monitor kind, seed and the falsy-callback configurations), depth 4 on the other costs
+    items = [(cfg, depth if (cfg['cost'] == 'sphere' or not ctx.thorough) else depth - 1, (i,)) for cfg in cfgs for i in range(len(ALPHABET))]
     kwcfgs = [c for c in cfgs if not c.get('callback_kind') and c['cost'] == 'sphere' and (c['evalmon'], c['stepmon']) in (('default', 'default'), ('Monitor', 'Monitor'))]
     items += [(cfg, depth, (i,), 'kw') for cfg in kwcfgs for i in range(len(KW_ALPHABET))]
-    ctx.bounds = {'depth': depth, 'alphabet': ALPHABET, 'keyword_alphabet': KW_ALPHABET, 'keyword_alphabet_configs': len(kwcfgs),
+    ctx.bounds = {'depth_on_other_costs_in_thorough': depth - 1 if ctx.thorough else depth, 'depth': depth, 'alphabet': ALPHABET, 'keyword_alphabet': KW_ALPHABET, 'keyword_alphabet_configs': len(kwcfgs),
                   'configs': len(cfgs), 'solvers': list(solverlab.SOLVERS),
                   'histories_per_config': sum(len(ALPHABET) ** d for d in range(1, depth + 1))}
     ctx.rule = ("all operation sequences of length <= depth over the 10-op alphabet for every configuration; a state is the "
